@@ -8,6 +8,7 @@ A check module (checks/cNN_*.py) defines
   def replay(case) -> list[(sig, detail)]      # re-run one saved case, bypassing Hypothesis
   optional: def known_probes() / BUDGET = {'quick': {...}, 'thorough': {...}}
 """
+import contextlib
 import hashlib
 import json
 import multiprocessing
@@ -115,7 +116,7 @@ def drive(ctx: Ctx, strategy, body: Callable[[Any], None], total: int, chunk: in
 	done = 0
 	k = 0
 	# the time budget is a safety net, not a verdict: on a loaded machine every shard still completes a floor of cases
-	floor = int(ctx.budget.get('min_cases', max(2, total // 4)))  # >= 2: the first example of a Hypothesis run is the minimal (trivial) one
+	floor = int(ctx.budget.get('min_cases', max(2, min(total // 4, 40))))  # >= 2: the first example of a Hypothesis run is the minimal (trivial) one
 	cases_run = [0]
 	# chunked on purpose: measured on C14, one long Hypothesis run per shard yields 37% duplicate programs (mutation of earlier examples that only
 	# touches unused draws), short runs with derived seeds 19% (mostly the minimal example that opens every run)
@@ -149,37 +150,46 @@ class _CaseTimeout(BaseException):
 	pass
 
 
+@contextlib.contextmanager
+def watchdog(seconds: float, exc: type):
+	"""Alarm that nests: raises exc() in the main thread after `seconds` and then once a second until the block is left (so a
+	timeout raised while a destructor or a swallowing handler runs is not lost), and gives an enclosing watchdog its remaining time back."""
+	import signal
+
+	def on_alarm(signum, frame):
+		raise exc()
+
+	started = time.monotonic()
+	old = signal.signal(signal.SIGALRM, on_alarm)
+	previous = signal.setitimer(signal.ITIMER_REAL, seconds, 1.0)
+	try:
+		yield
+	finally:
+		signal.setitimer(signal.ITIMER_REAL, 0)
+		signal.signal(signal.SIGALRM, old)
+		if previous[0] > 0:
+			signal.setitimer(signal.ITIMER_REAL, max(previous[0] - (time.monotonic() - started), 0.05), previous[1])
+
+
 def _with_case_watchdog(ctx: Ctx, body: Callable[[Any], None], x: Any) -> bool:
 	"""Runs body(x) under a generous per-case alarm (checks with their own, tighter watchdog nest inside it). A case that does not finish is
 	counted as inconclusive (never a verdict) and kept for diagnosis in the evidence, and the shard goes on."""
-	import signal
+	import threading
 	limit = float(ctx.budget.get('case_seconds', 180))
-
-	def on_alarm(signum, frame):
-		raise _CaseTimeout()
-
-	try:
-		old = signal.signal(signal.SIGALRM, on_alarm)
-	except ValueError:  # not in the main thread
+	if threading.current_thread() is not threading.main_thread():
 		body(x)
 		return True
-	previous = signal.setitimer(signal.ITIMER_REAL, limit)
-	finished = True
 	try:
-		body(x)
+		with watchdog(limit, _CaseTimeout):
+			body(x)
 	except _CaseTimeout:
-		finished = False
 		ctx.timeouts += 1
 		ctx.discards['inconclusive:case-timeout'] += 1
 		kept = ctx.extra.setdefault('timed_out_cases', [])
 		if len(kept) < 3:
 			kept.append(repr(x)[:2000])
-	finally:
-		signal.setitimer(signal.ITIMER_REAL, 0)
-		signal.signal(signal.SIGALRM, old)
-		if previous[0] > 0:
-			signal.setitimer(signal.ITIMER_REAL, previous[0])
-	return finished
+		return False
+	return True
 
 
 def _drive_atheris(ctx: Ctx, strategy, body: Callable[[Any], None]) -> None:
@@ -355,7 +365,10 @@ def _worker(args) -> dict:
 	modname, prop, tier, seed, shard, nshards, budget, scratch, excluded = args
 	try:
 		env.setup()
+		import faulthandler
 		import importlib
+		import signal
+		faulthandler.register(signal.SIGUSR1, all_threads=False)  # diagnosis of a slow shard: kill -USR1 <pid> prints where it is
 		mod = importlib.import_module(modname)
 		sdir = os.path.join(scratch, f'shard{shard}')
 		os.makedirs(sdir, exist_ok=True)
